@@ -3,6 +3,7 @@ import PsutilModel.Model.C17
 import PsutilModel.Model.C17Ext
 import PsutilModel.Model.C17Py
 import PsutilModel.Model.C17R3
+import PsutilModel.Model.C17Thr
 import PsutilModel.Generated.C17
 namespace Psutil.C17
 
@@ -143,5 +144,14 @@ def iffLinux : List (Nat × String) :=
     match Gen.C17.iffHeader.lookup e.1 with
     | some bit => some (bit, e.2)
     | none => none
+
+/-! ### seeded round 5 -/
+
+/-- the GIL windows of C function `fn` around its static-result calls, as the translator read them; a function the scan
+    did not list makes no such call it could see: nothing is claimed for it (both defects assumed) -/
+def gilCfgOf (fn : String) : Thr.GilCfg :=
+  match Gen.C17.gilStaticLoops.lookup fn with
+  | some evs => Thr.cfgOfEvents evs
+  | none => { relProduce := true, relBetween := true }
 
 end Psutil.C17
